@@ -29,6 +29,10 @@ class EdgeData(ElementBase):
         # what goes into blockMeshDict's edge definition
         return self.kind
 
+    def reverse(self) -> None:
+        """Called when the edge will be traversed from its other end (inverted faces/operations);
+        only direction-dependent data needs to do anything"""
+
 
 class Line(EdgeData):
     """A 'line' edge is created by default and needs no extra parameters"""
@@ -95,6 +99,10 @@ class Angle(EdgeData):
 
     def scale(self, ratio, origin=None):
         """Axis is not to be scaled"""
+
+    def reverse(self) -> None:
+        """Seen from the other end, the arc turns the other way"""
+        self.angle = -self.angle
 
     def rotate(self, angle, axis, origin=None):
         """Axis is a direction: it turns but is not displaced by a shifted origin"""
@@ -183,6 +191,10 @@ class Spline(OnCurve):
     def __init__(self, points: PointListType):
         curve = DiscreteCurve(points)
         super().__init__(curve, n_points=len(points), representation=self.kind)
+
+    def reverse(self) -> None:
+        """Points are listed from the first vertex of the edge to the second"""
+        self.curve.array.points = self.curve.array.points[::-1].copy()
 
     @property
     def parts(self):
